@@ -244,9 +244,8 @@ def run(prog, world, sem, rep):
     okq = False
     det = "anchor-lost: UnbondRequests handler"
     for v in qv:
-        if v.body.kind == "closure":
-            continue
-        pushes = [e for (_, _, e) in call_sites(sem, [v], lambda k: False)]
+        # (the list may be built by a loop pushing tuples or by `range(..).map(|item| ..).collect()`: in the second form the tuple is
+        # what the closure returns, its parameter bound to the item of the range)
         ret = v.resolve(world.ret_expr(v.body))
         tups = find(ret, lambda y: y.op == "tuple" and len(y.args) == 3)
         for t in tups:
